@@ -690,15 +690,34 @@ def hess_qr_sweep_all_sizes(rep: Report):
             untouched = sor(c2 < s_, sand(*[snot(SBool.mk(zi(rho) == zi(s_ + w + k * m))) for w in (0, 1) for k in range(4)]))
             c.require("inv.preserve", sor(snot(untouched), SBool.mk(SReal.lift(Hs.at(rho, c2)) == SReal.lift(closed(m, s_)((rho, c2))))),
                       "rows other than s, s+1 (in every component block) and columns < s are not written", key="hessqr.sweep.inv.preserve.frame", timeout_s=60)
-            # (3) with the naming RF(s, .) := new top row, TS(s+1, .) := new bottom row (and TS(s+1, s) = 0 by the step above) the
-            #     state is the closed form for s+1: checked pointwise on the rotated rows
+            # (3) with the naming RF(s, .) := new top row, TS(s+1, .) := new bottom row the state is the closed form for s+1; checked on
+            #     the rotated rows: top row at the generic column >= s, bottom row at a generic column > s and at column s itself
+            #     (where the annihilation makes it zero) - split so that each goal is linear over the already proved polynomial identities
             c.assume(ix.scal_eq(q(RF, s_, col), new_top))
-            c.assume(ix.scal_eq(q(TS, s_ + 1, col), new_bot))
             for comp in range(4):
-                for which in (0, 1):
-                    have = Hs.at(s_ + which + comp * m, col)
-                    want = closed(m, s_ + 1)((s_ + which + comp * m, col))
-                    c.require("inv.preserve", SBool.mk(SReal.lift(have) == SReal.lift(want)), "rotated rows match the invariant for s+1", key=f"hessqr.sweep.inv.preserve.rows.c{comp}.r{which}", timeout_s=60)
+                have = Hs.at(s_ + comp * m, col)
+                c.assume(SBool.mk(SReal.lift(have) == SReal.lift(new_top.c[comp])))        # proved above (step.rotated.c*.r0)
+                want = closed(m, s_ + 1)((s_ + comp * m, col))
+                c.require("inv.preserve", SBool.mk(SReal.lift(have) == SReal.lift(want)), "rotated top row matches the invariant for s+1", key=f"hessqr.sweep.inv.preserve.rows.c{comp}.r0", timeout_s=60)
+            colb = ix.fresh_indices(c, [n], "b")[0]
+            c.assume(colb > s_)
+            topb, botb = ts(s_, colb), h0(s_ + 1, colb)
+            new_botb = M[0][1].conj() * topb + M[1][1].conj() * botb
+            c.assume(ix.scal_eq(q(TS, s_ + 1, colb), new_botb))
+            zero_bot = M[0][1].conj() * ts(s_, s_) + M[1][1].conj() * h0(s_ + 1, s_)              # == 0 (assumed above, same expression)
+            for comp in range(4):
+                have = Hs.at(s_ + 1 + comp * m, colb)
+                c.require("step", SBool.mk(SReal.lift(have) == SReal.lift(new_botb.c[comp])), f"component {comp} of row s+1 (column > s) is that of M^H [row s; row s+1]",
+                          key=f"hessqr.sweep.step.rotated_right.c{comp}", timeout_s=60)
+                c.assume(SBool.mk(SReal.lift(have) == SReal.lift(new_botb.c[comp])))
+                want = closed(m, s_ + 1)((s_ + 1 + comp * m, colb))
+                c.require("inv.preserve", SBool.mk(SReal.lift(have) == SReal.lift(want)), "rotated bottom row (columns > s) matches the invariant for s+1", key=f"hessqr.sweep.inv.preserve.rows.c{comp}.r1", timeout_s=60)
+                have_s = Hs.at(s_ + 1 + comp * m, s_)
+                c.require("step", SBool.mk(SReal.lift(have_s) == SReal.lift(zero_bot.c[comp])), f"component {comp} of the entry below the diagonal is that of M^H [x1; x2]",
+                          key=f"hessqr.sweep.step.subdiagonal.c{comp}", timeout_s=60)
+                c.assume(SBool.mk(SReal.lift(have_s) == SReal.lift(zero_bot.c[comp])))
+                want_s = closed(m, s_ + 1)((s_ + 1 + comp * m, s_))
+                c.require("inv.preserve", SBool.mk(SReal.lift(have_s) == SReal.lift(want_s)), "the sub-diagonal entry of column s is zero after the step", key=f"hessqr.sweep.inv.preserve.subdiag.c{comp}", timeout_s=60)
 
     def k_ggivens(I, args, kwargs):
         x1, x2 = args
